@@ -2,17 +2,33 @@
 
 from __future__ import annotations
 
+from contracts.c05_align import build_alignment, rotation_pools, wigner_unitarity_lemmas
 from contracts.c05_spin import build_spin_range
 from vlib.core import Check
 
 LEVEL = "proof"
-ENGINE = "E3 pyvc"
-TECHNIQUE = "contract-based deductive verification: symbolic execution of the real function's AST with a loop invariant, VCs discharged by z3"
-CLAIM = "create_spin_range never raises and returns exactly -s..s in unit steps (0 removed iff no_zero_spin and more than one element), for every 2s in N"
-NOTE = "float/Decimal treated as mathematical reals (A-arith); assumed contracts of list.append/list.remove"
+ENGINE = "E3 pyvc + E1 exprvc"
+TECHNIQUE = (
+    "contract-based deductive verification: E3 symbolic execution of create_spin_range with a loop invariant; E1: the alignment matrix read off the real aligned "
+    "amplitude is proved unitary entrywise for all angles by z3 (per enumerated single-topology reaction), D^j unitarity lemmas"
+)
+CLAIM = (
+    "create_spin_range never raises and returns exactly -s..s in unit steps for every 2s in N (all inputs, loop invariant). For every enumerated single-topology reaction "
+    "with complete helicity sets and each of axis-angle / DPD reference 1..3, the matrix M of the real aligned amplitude (coefficients of the amplitude symbols) satisfies "
+    "M^dagger M = 1 for all rotation angles, hence aligned intensity = unaligned intensity for all amplitude values at every event; D^j is unitary for j <= 5/2."
+)
+NOTE = (
+    "Structural enumeration (the bound): 8 single-topology zoo reactions (spins 0, 1/2, 1, 3/2; massless photon) x alignments; within each, angles and amplitudes are "
+    "unbounded. float/Decimal as mathematical reals (A-arith); assumed contracts of list.append/list.remove; SymPy's Rotation.d explicit formulas are not trusted: "
+    "their unitarity is an obligation. Unitarity is proved for ALL angle values (stronger than the statement); a refuted entry counts as a violation only if the replay "
+    "on physical events (real kinematic-variable definitions evaluated on generated four-momenta) reproduces aligned != unaligned."
+)
 
 
 def build(chk: Check) -> None:
     chk.trust("z3 5.1.0 unsat answers")
     chk.assume("A-arith: float / Decimal arithmetic is exact real arithmetic (exact for the half-integers that occur)")
     build_spin_range(chk)
+    rotation_pools(chk)
+    wigner_unitarity_lemmas(chk)
+    build_alignment(chk)
